@@ -1,9 +1,11 @@
 /-
 Point-in-polygon over the reals (C12), part 5: removal of the genericity hypotheses of `contains_convex` by perturbation.
 The tests made by `Polygon::contains` are stable under a small move of the point to the east (the longitude ranges are
-closed at their western end and open at their eastern end) and under a small move in latitude (strict sign tests), so the
-theorem extends to points whose meridian passes through a vertex (`contains_convex_any_lon`) and to the two poles
-(`contains_convex_all`): the only points left out are those on the great circle of an edge.
+closed at their western end and open at their eastern end) and under a small move in latitude (strict sign tests; an edge
+whose great circle passes through the point without the point being on the edge has the point outside its longitude
+range), so the theorem extends to the points whose meridian passes through a vertex, to the points of the great circles
+of the edges (`contains_convex_nonpole`) and to the two poles: `contains_convex_final` holds for EVERY point of the sphere
+that is not on the boundary of the polygon.
 -/
 import HpxVerif.Lemmas.PolyReal4
 import Mathlib.Topology.Order.LeftRightNhds
@@ -99,52 +101,186 @@ theorem contains_congr (poly : Polygon ℝ) (hb : poly.Built) (p p' : Coo ℝ)
 theorem pert_lon (p : Coo ℝ) (a b ε : ℝ) : (pert p a b ε).lon = p.lon + a * ε := rfl
 theorem pert_lat (p : Coo ℝ) (a b ε : ℝ) : (pert p a b ε).lat = p.lat + b * ε := rfl
 
-/-- transfer of the theorem from a class `Q` of points to a point all of whose small perturbations are in `Q` -/
+/-- transfer of the theorem from a class `Q` of points to a point all of whose small perturbations are in `Q`.
+    Each edge either has `p` off its great circle (the sign tests are stable) or has `p` outside its longitude range
+    (the test is `false` before and after); if `p` is on some great circle then it is strictly outside some half-space. -/
 theorem contains_convex_transfer (poly : Polygon ℝ) (hb : poly.Built) (o : ℝ) (p : Coo ℝ) (hp : p.Valid)
-    (hgc : ∀ e ∈ edges poly.vertices, dot p (cross e.1 e.2) ≠ 0) (ho : o ≠ 0) (a b : ℝ) (Q : Coo ℝ → Prop)
+    (ho : o ≠ 0) (a b : ℝ) (Q : Coo ℝ → Prop)
+    (hedge : ∀ e ∈ edges poly.vertices, dot p (cross e.1 e.2) ≠ 0 ∨ ¬ LonRange e.1.lon e.2.lon p.lon)
+    (hout : (∃ e ∈ edges poly.vertices, dot p (cross e.1 e.2) = 0) →
+      ∃ e' ∈ edges poly.vertices, o * dot p (cross e'.1 e'.2) < 0)
     (hlon : ∀ᶠ ε in 𝓝[>] (0 : ℝ), ∀ e ∈ edges poly.vertices,
       (LonRange e.1.lon e.2.lon (p.lon + a * ε) ↔ LonRange e.1.lon e.2.lon p.lon))
     (hQ : ∀ᶠ ε in 𝓝[>] (0 : ℝ), Q (pert p a b ε))
-    (known : ∀ p', Q p' → (∀ e ∈ edges poly.vertices, dot p' (cross e.1 e.2) ≠ 0) →
+    (known : ∀ p', Q p' →
+      ((∀ e ∈ edges poly.vertices, 0 ≤ o * dot p' (cross e.1 e.2)) → ∀ e ∈ edges poly.vertices, 0 < o * dot p' (cross e.1 e.2)) →
       (poly.contains p' = true ↔ ∀ e ∈ edges poly.vertices, 0 < o * dot p' (cross e.1 e.2))) :
     poly.contains p = true ↔ ∀ e ∈ edges poly.vertices, 0 < o * dot p (cross e.1 e.2) := by
-  have s1 : ∀ᶠ ε in 𝓝[>] (0 : ℝ), ∀ e ∈ edges poly.vertices,
-      (0 < 1 * dot (pert p a b ε) (npCross e.1 e.2) ↔ 0 < 1 * dot p (npCross e.1 e.2)) ∧
-        1 * dot (pert p a b ε) (npCross e.1 e.2) ≠ 0 :=
-    eventually_forall_mem_list _ _ _ (fun e he => sign_stable hp a b 1 _ (dot_npCross_ne (hgc e he)))
-  have s2 : ∀ᶠ ε in 𝓝[>] (0 : ℝ), ∀ e ∈ edges poly.vertices,
-      (0 < o * dot (pert p a b ε) (cross e.1 e.2) ↔ 0 < o * dot p (cross e.1 e.2)) ∧
-        o * dot (pert p a b ε) (cross e.1 e.2) ≠ 0 :=
-    eventually_forall_mem_list _ _ _ (fun e he => sign_stable hp a b o _ (mul_ne_zero ho (hgc e he)))
+  have s1 : ∀ᶠ ε in 𝓝[>] (0 : ℝ), ∀ e ∈ edges poly.vertices, dot p (cross e.1 e.2) ≠ 0 →
+      ((0 < 1 * dot (pert p a b ε) (npCross e.1 e.2) ↔ 0 < 1 * dot p (npCross e.1 e.2)) ∧
+        1 * dot (pert p a b ε) (npCross e.1 e.2) ≠ 0) := by
+    apply eventually_forall_mem_list
+    intro e _
+    by_cases hne : dot p (cross e.1 e.2) ≠ 0
+    · exact (sign_stable hp a b 1 _ (dot_npCross_ne hne)).mono (fun ε h _ => h)
+    · exact Eventually.of_forall (fun ε h => absurd h hne)
+  have s2 : ∀ᶠ ε in 𝓝[>] (0 : ℝ), ∀ e ∈ edges poly.vertices, dot p (cross e.1 e.2) ≠ 0 →
+      ((0 < o * dot (pert p a b ε) (cross e.1 e.2) ↔ 0 < o * dot p (cross e.1 e.2)) ∧
+        o * dot (pert p a b ε) (cross e.1 e.2) ≠ 0) := by
+    apply eventually_forall_mem_list
+    intro e _
+    by_cases hne : dot p (cross e.1 e.2) ≠ 0
+    · exact (sign_stable hp a b o _ (mul_ne_zero ho hne)).mono (fun ε h _ => h)
+    · exact Eventually.of_forall (fun ε h => absurd h hne)
   obtain ⟨ε, h1, h2, h3, h4⟩ := (hlon.and (hQ.and (s1.and s2))).exists
   have hc : poly.contains p = poly.contains (pert p a b ε) := by
     apply contains_congr poly hb
     intro e he
-    congr 1
-    · rw [Bool.eq_iff_iff, is_in_lon_range_spec, is_in_lon_range_spec, pert_lon]
-      exact (h1 e he).symm
-    · rw [r_gt, r_gt, r_zero, decide_eq_decide]
-      have := (h3 e he).1
-      rw [one_mul, one_mul] at this
-      exact this.symm
-  rw [hc, known _ h2 (fun e he h0 => (h4 e he).2 (by rw [h0, mul_zero]))]
-  constructor
-  · intro h e he; exact (h4 e he).1.mp (h e he)
-  · intro h e he; exact (h4 e he).1.mpr (h e he)
+    rcases hedge e he with hne | hnr
+    · congr 1
+      · rw [Bool.eq_iff_iff, is_in_lon_range_spec, is_in_lon_range_spec, pert_lon]
+        exact (h1 e he).symm
+      · rw [r_gt, r_gt, r_zero, decide_eq_decide]
+        have := (h3 e he hne).1
+        rw [one_mul, one_mul] at this
+        exact this.symm
+    · have f1 : isInLonRange p e.1 e.2 = false := by
+        rw [← Bool.not_eq_true, is_in_lon_range_spec]; exact hnr
+      have f2 : isInLonRange (pert p a b ε) e.1 e.2 = false := by
+        rw [← Bool.not_eq_true, is_in_lon_range_spec, pert_lon, h1 e he]; exact hnr
+      rw [f1, f2, Bool.false_and, Bool.false_and]
+  rw [hc]
+  by_cases hJ : ∃ e ∈ edges poly.vertices, dot p (cross e.1 e.2) = 0
+  · -- both sides are false
+    obtain ⟨e', he', hneg⟩ := hout hJ
+    have hne' : dot p (cross e'.1 e'.2) ≠ 0 := by
+      intro h0; rw [h0, mul_zero] at hneg; exact lt_irrefl _ hneg
+    have hneg' : o * dot (pert p a b ε) (cross e'.1 e'.2) < 0 := by
+      have := h4 e' he' hne'
+      rcases lt_or_gt_of_ne this.2 with g | g
+      · exact g
+      · have := this.1.mp g; linarith
+    rw [known _ h2 (fun hall => absurd (hall e' he') (not_le.mpr hneg'))]
+    obtain ⟨e, he, h0⟩ := hJ
+    constructor
+    · intro h; have := h e' he'; linarith
+    · intro h; have := h e he; rw [h0, mul_zero] at this; exact absurd this (lt_irrefl _)
+  · push Not at hJ
+    rw [known _ h2 (fun hall e he => lt_of_le_of_ne (hall e he) (Ne.symm (h4 e he (hJ e he)).2))]
+    constructor
+    · intro h e he; exact (h4 e he (hJ e he)).1.mp (h e he)
+    · intro h e he; exact (h4 e he (hJ e he)).1.mpr (h e he)
 
 theorem valid_eq_cooOf {p : Coo ℝ} (hp : p.Valid) : p = cooOf (p.lon, p.lat) := by
   cases p
   simp only [cooOf, Coo.mk.injEq]
   exact ⟨hp.hx, hp.hy, hp.hz, trivial, trivial⟩
 
-/-- **`contains_convex` without the hypothesis on the meridian of `p`**: also for the points whose meridian passes
-    through a vertex (the case of the bug fixed in release 0.3.0 of the crate) -/
-theorem contains_convex_any_lon (poly : Polygon ℝ) (hb : poly.Built) (o : ℝ) (h : ConvexNoPole o poly.vertices)
-    (p : Coo ℝ) (hp : p.Valid) (hpn : p.NonPole) (hgc : ∀ e ∈ edges poly.vertices, dot p (cross e.1 e.2) ≠ 0) :
+/-- a point of the closed arc of an edge on the meridian `l`, when `l` is in the longitude range of the edge -/
+theorem lonRange_closed_point {u w : Coo ℝ} (hu : u.Valid) (hw : w.Valid) (hun : u.NonPole) (hwn : w.NonPole)
+    (l : ℝ) (hl0 : 0 ≤ l) (hl1 : l < 2 * π) (hR : LonRange u.lon w.lon l) (hs : sin (w.lon - u.lon) ≠ 0) :
+    ∃ s t ρ : ℝ, 0 ≤ s ∧ 0 ≤ t ∧ 0 < ρ ∧ s * u.x + t * w.x = ρ * cos l ∧ s * u.y + t * w.y = ρ * sin l := by
+  by_cases h1 : l = u.lon
+  · exact ⟨1, 0, cos u.lat, zero_le_one, le_refl _, hun.cos_pos, by rw [hu.hx, h1]; ring, by rw [hu.hy, h1]; ring⟩
+  · by_cases h2 : l = w.lon
+    · exact ⟨0, 1, cos w.lat, le_refl _, zero_le_one, hwn.cos_pos, by rw [hw.hx, h2]; ring, by rw [hw.hy, h2]; ring⟩
+    · obtain ⟨β, hβ1, hβ2, s, t, ρ, hs', ht', hρ, ex, ey, _⟩ :=
+        (lonRange_iff_arcMeets hu hw hun hwn l hl0 hl1 h1 h2).mp ⟨hR, hs⟩
+      have hc : 0 < cos β := cos_pos_of_mem_Ioo ⟨hβ1, hβ2⟩
+      exact ⟨s, t, ρ * cos β, hs'.le, ht'.le, by positivity, by rw [ex]; ring, by rw [ey]; ring⟩
+
+/-- a point (not a pole) of an edge's great circle whose longitude is in the range of that edge is in the closed polygon -/
+theorem closed_of_lonRange_of_dot_zero {o : ℝ} {vs : List (Coo ℝ)} (h : ConvexNoPole o vs) (p : Coo ℝ) (hp : p.Valid)
+    (hpn : p.NonPole) (e : Coo ℝ × Coo ℝ) (he : e ∈ edges vs) (h0 : dot p (cross e.1 e.2) = 0)
+    (hR : LonRange e.1.lon e.2.lon p.lon) : ∀ e' ∈ edges vs, 0 ≤ o * dot p (cross e'.1 e'.2) := by
+  have hpi := pi_pos
+  have hm := mem_edges he
+  obtain ⟨hu, hun⟩ := h.hv e.1 hm.1
+  obtain ⟨hw, hwn⟩ := h.hv e.2 hm.2
+  have hcp := hpn.cos_pos
+  -- the edge is not along a meridian
+  have hs : sin (e.2.lon - e.1.lon) ≠ 0 := by
+    intro hs0
+    by_cases hab : e.2.lon - e.1.lon = 0
+    · have : e.2.lon = e.1.lon := by linarith
+      rw [this] at hR; exact lonRange_self _ _ hR
+    · have hc := sin_eq_zero_cos (x := e.2.lon - e.1.lon) (by linarith [hu.lon1, hw.lon0]) (by linarith [hu.lon0, hw.lon1])
+        hs0 hab
+      have P := sin_pos_iff_of_abs_lt (e.2.lon - e.1.lon) (by linarith [hu.lon1, hw.lon0]) (by linarith [hu.lon0, hw.lon1])
+      have N := sin_neg_iff_of_abs_lt (e.2.lon - e.1.lon) (by linarith [hu.lon1, hw.lon0]) (by linarith [hu.lon0, hw.lon1])
+      apply h.no_opposite e he
+      rcases lt_trichotomy (e.2.lon - e.1.lon) 0 with g | g | g
+      · rw [abs_of_neg g]
+        rcases lt_trichotomy (e.2.lon - e.1.lon) (-π) with g2 | g2 | g2
+        · have := P.mpr (Or.inr g2); linarith
+        · linarith
+        · have := N.mpr (Or.inl ⟨g2, g⟩); linarith
+      · exact absurd g hab
+      · rw [abs_of_pos g]
+        rcases lt_trichotomy (e.2.lon - e.1.lon) π with g2 | g2 | g2
+        · have := P.mpr (Or.inl ⟨g, g2⟩); linarith
+        · exact g2
+        · have := N.mpr (Or.inr g2); linarith
+  have hz : (cross e.1 e.2).2.2 ≠ 0 := by
+    rw [cross_z_eq hu hw]; exact mul_ne_zero (mul_ne_zero hun.cos_pos.ne' hwn.cos_pos.ne') hs
+  obtain ⟨s, t, ρ, hs0, ht0, hρ, ex, ey⟩ := lonRange_closed_point hu hw hun hwn p.lon hp.lon0 hp.lon1 hR hs
+  -- the arc point and `p` are the same direction
+  have hqz : cos p.lat * (s * e.1.z + t * e.2.z) = ρ * sin p.lat := by
+    have hq : (cross e.1 e.2).1 * (ρ * cos p.lon) + (cross e.1 e.2).2.1 * (ρ * sin p.lon) +
+        (cross e.1 e.2).2.2 * (s * e.1.z + t * e.2.z) = 0 := by
+      rw [← ex, ← ey]; unfold cross; ring
+    have hp0 : cos p.lat * cos p.lon * (cross e.1 e.2).1 + cos p.lat * sin p.lon * (cross e.1 e.2).2.1 +
+        sin p.lat * (cross e.1 e.2).2.2 = 0 := by
+      have := h0; unfold dot at this; rw [hp.hx, hp.hy, hp.hz] at this; exact this
+    have : (cross e.1 e.2).2.2 * (cos p.lat * (s * e.1.z + t * e.2.z) - ρ * sin p.lat) = 0 := by
+      linear_combination cos p.lat * hq - ρ * hp0
+    rcases mul_eq_zero.mp this with g | g
+    · exact absurd g hz
+    · linarith
+  intro e' he'
+  have key : ρ * (o * dot p (cross e'.1 e'.2)) =
+      cos p.lat * (s * (o * dot e.1 (cross e'.1 e'.2)) + t * (o * dot e.2 (cross e'.1 e'.2))) := by
+    unfold dot
+    rw [hp.hx, hp.hy, hp.hz]
+    linear_combination (-(o * cos p.lat * (cross e'.1 e'.2).1)) * ex - (o * cos p.lat * (cross e'.1 e'.2).2.1) * ey -
+      (o * (cross e'.1 e'.2).2.2) * hqz
+  have c1 := h.vertex_edge e.1 hm.1 e' he'
+  have c2 := h.vertex_edge e.2 hm.2 e' he'
+  have : 0 ≤ ρ * (o * dot p (cross e'.1 e'.2)) := by
+    rw [key]
+    exact mul_nonneg hcp.le (add_nonneg (mul_nonneg hs0 c1) (mul_nonneg ht0 c2))
+  exact (mul_nonneg_iff_of_pos_left hρ).mp this
+
+/-- if `p` is on a great circle but not on the boundary, it is strictly outside some half-space -/
+theorem out_of_not_boundary {o : ℝ} {E : List (Coo ℝ × Coo ℝ)} (p : Coo ℝ)
+    (hnb : (∀ e ∈ E, 0 ≤ o * dot p (cross e.1 e.2)) → ∀ e ∈ E, 0 < o * dot p (cross e.1 e.2))
+    (hJ : ∃ e ∈ E, dot p (cross e.1 e.2) = 0) : ∃ e' ∈ E, o * dot p (cross e'.1 e'.2) < 0 := by
+  by_contra hcon
+  push Not at hcon
+  obtain ⟨e, he, h0⟩ := hJ
+  have := hnb hcon e he
+  rw [h0, mul_zero] at this
+  exact lt_irrefl _ this
+
+/-- **`contains_convex` for every point that is not a pole**: also for the points whose meridian passes through a vertex
+    (the case of the bug fixed in release 0.3.0 of the crate) and the points of the great circles of the edges, provided
+    `p` is not on the boundary of the polygon -/
+theorem contains_convex_nonpole (poly : Polygon ℝ) (hb : poly.Built) (o : ℝ) (h : ConvexNoPole o poly.vertices)
+    (p : Coo ℝ) (hp : p.Valid) (hpn : p.NonPole)
+    (hnb : (∀ e ∈ edges poly.vertices, 0 ≤ o * dot p (cross e.1 e.2)) →
+      ∀ e ∈ edges poly.vertices, 0 < o * dot p (cross e.1 e.2)) :
     poly.contains p = true ↔ ∀ e ∈ edges poly.vertices, 0 < o * dot p (cross e.1 e.2) := by
   have ho0 : o ≠ 0 := by rcases h.ho with h | h <;> rw [h] <;> norm_num
-  refine contains_convex_transfer poly hb o p hp hgc ho0 1 0
-    (fun p' => p'.Valid ∧ p'.NonPole ∧ ∀ v ∈ poly.vertices, p'.lon ≠ v.lon) ?_ ?_ ?_
+  refine contains_convex_transfer poly hb o p hp ho0 1 0
+    (fun p' => p'.Valid ∧ p'.NonPole ∧ ∀ v ∈ poly.vertices, p'.lon ≠ v.lon) ?_ (out_of_not_boundary p hnb) ?_ ?_ ?_
+  · intro e he
+    by_cases h0 : dot p (cross e.1 e.2) = 0
+    · right
+      intro hR
+      have := hnb (closed_of_lonRange_of_dot_zero h p hp hpn e he h0 hR) e he
+      rw [h0, mul_zero] at this
+      exact lt_irrefl _ this
+    · exact Or.inl h0
   · apply eventually_forall_mem_list
     intro e _
     filter_upwards [eventually_compare e.1.lon p.lon, eventually_compare e.2.lon p.lon] with ε h1 h2
@@ -162,21 +298,71 @@ theorem contains_convex_any_lon (poly : Polygon ℝ) (hb : poly.Built) (o : ℝ)
     · unfold Coo.NonPole; rw [pert_lat, zero_mul, add_zero]; exact hpn
     · intro v hv; rw [pert_lon, one_mul]; exact h2 v hv
   · rintro p' ⟨q1, q2, q3⟩ hg
-    exact contains_convex poly hb o h p' q1 q2 q3
-      (fun hall e he => lt_of_le_of_ne (hall e he) (Ne.symm (mul_ne_zero ho0 (hg e he))))
+    exact contains_convex poly hb o h p' q1 q2 q3 hg
+
+/-- at a pole, an edge whose great circle passes through the pole is along a meridian: its longitude range is empty -/
+theorem not_lonRange_of_z_zero {o : ℝ} {vs : List (Coo ℝ)} (h : ConvexNoPole o vs) (e : Coo ℝ × Coo ℝ) (he : e ∈ edges vs)
+    (hz : (cross e.1 e.2).2.2 = 0) (l : ℝ) : ¬ LonRange e.1.lon e.2.lon l := by
+  have hpi := pi_pos
+  have hm := mem_edges he
+  obtain ⟨hu, hun⟩ := h.hv e.1 hm.1
+  obtain ⟨hw, hwn⟩ := h.hv e.2 hm.2
+  rw [cross_z_eq hu hw] at hz
+  have hs0 : sin (e.2.lon - e.1.lon) = 0 := by
+    rcases mul_eq_zero.mp hz with g | g
+    · rcases mul_eq_zero.mp g with g' | g'
+      · exact absurd g' hun.cos_pos.ne'
+      · exact absurd g' hwn.cos_pos.ne'
+    · exact g
+  by_cases hab : e.2.lon - e.1.lon = 0
+  · have : e.2.lon = e.1.lon := by linarith
+    rw [this]; exact lonRange_self _ _
+  · exfalso
+    have P := sin_pos_iff_of_abs_lt (e.2.lon - e.1.lon) (by linarith [hu.lon1, hw.lon0]) (by linarith [hu.lon0, hw.lon1])
+    have N := sin_neg_iff_of_abs_lt (e.2.lon - e.1.lon) (by linarith [hu.lon1, hw.lon0]) (by linarith [hu.lon0, hw.lon1])
+    apply h.no_opposite e he
+    rcases lt_trichotomy (e.2.lon - e.1.lon) 0 with g | g | g
+    · rw [abs_of_neg g]
+      rcases lt_trichotomy (e.2.lon - e.1.lon) (-π) with g2 | g2 | g2
+      · have := P.mpr (Or.inr g2); linarith
+      · linarith
+      · have := N.mpr (Or.inl ⟨g2, g⟩); linarith
+    · exact absurd g hab
+    · rw [abs_of_pos g]
+      rcases lt_trichotomy (e.2.lon - e.1.lon) π with g2 | g2 | g2
+      · have := P.mpr (Or.inl ⟨g, g2⟩); linarith
+      · exact g2
+      · have := N.mpr (Or.inr g2); linarith
 
 /-- **`Polygon::contains` on convex polygons, final form.**  For a polygon as built by `Polygon::new` from a strictly
     convex list of at least 3 vertices (either winding), contained in an open hemisphere, with neither pole in the closed
-    polygon, and EVERY point `p` of the sphere (poles and vertex meridians included) that is on no edge's great circle:
+    polygon, and EVERY point `p` of the sphere (poles, vertex meridians, great circles of the edges included) that is
+    not on the boundary of the polygon (`hnb`: if `p` is in all the closed half-spaces then it is in all the open ones):
     `contains p = true` iff `p` is strictly inside all the half-spaces of the edges. -/
-theorem contains_convex_all (poly : Polygon ℝ) (hb : poly.Built) (o : ℝ) (h : ConvexNoPole o poly.vertices)
-    (p : Coo ℝ) (hp : p.Valid) (hgc : ∀ e ∈ edges poly.vertices, dot p (cross e.1 e.2) ≠ 0) :
+theorem contains_convex_final (poly : Polygon ℝ) (hb : poly.Built) (o : ℝ) (h : ConvexNoPole o poly.vertices)
+    (p : Coo ℝ) (hp : p.Valid)
+    (hnb : (∀ e ∈ edges poly.vertices, 0 ≤ o * dot p (cross e.1 e.2)) →
+      ∀ e ∈ edges poly.vertices, 0 < o * dot p (cross e.1 e.2)) :
     poly.contains p = true ↔ ∀ e ∈ edges poly.vertices, 0 < o * dot p (cross e.1 e.2) := by
   have hpi := pi_pos
   have ho0 : o ≠ 0 := by rcases h.ho with h | h <;> rw [h] <;> norm_num
+  -- at a pole, `p · N = ± N.z`
+  have hpole : p.lat = π / 2 ∨ p.lat = -(π / 2) → ∀ e ∈ edges poly.vertices,
+      dot p (cross e.1 e.2) ≠ 0 ∨ ¬ LonRange e.1.lon e.2.lon p.lon := by
+    intro hlat e he
+    by_cases h0 : dot p (cross e.1 e.2) = 0
+    · right
+      apply not_lonRange_of_z_zero h e he
+      unfold dot at h0
+      rw [hp.hx, hp.hy, hp.hz] at h0
+      rcases hlat with g | g
+      · rw [g, cos_pi_div_two, sin_pi_div_two] at h0; linarith
+      · rw [g, cos_neg, sin_neg, cos_pi_div_two, sin_pi_div_two] at h0; linarith
+    · exact Or.inl h0
   by_cases hn : p.lat = π / 2
   · -- north pole: move south
-    refine contains_convex_transfer poly hb o p hp hgc ho0 0 (-1) (fun p' => p'.Valid ∧ p'.NonPole) ?_ ?_ ?_
+    refine contains_convex_transfer poly hb o p hp ho0 0 (-1) (fun p' => p'.Valid ∧ p'.NonPole) (hpole (Or.inl hn))
+      (out_of_not_boundary p hnb) ?_ ?_ ?_
     · exact Eventually.of_forall (fun ε e _ => by rw [zero_mul, add_zero])
     · filter_upwards [eventually_small π hpi] with ε h1
       constructor
@@ -187,9 +373,10 @@ theorem contains_convex_all (poly : Polygon ℝ) (hb : poly.Built) (o : ℝ) (h 
         · rw [hn]; linarith
       · unfold Coo.NonPole; rw [pert_lat, hn]; constructor <;> linarith
     · rintro p' ⟨q1, q2⟩ hg
-      exact contains_convex_any_lon poly hb o h p' q1 q2 hg
+      exact contains_convex_nonpole poly hb o h p' q1 q2 hg
   · by_cases hs : p.lat = -(π / 2)
-    · refine contains_convex_transfer poly hb o p hp hgc ho0 0 1 (fun p' => p'.Valid ∧ p'.NonPole) ?_ ?_ ?_
+    · refine contains_convex_transfer poly hb o p hp ho0 0 1 (fun p' => p'.Valid ∧ p'.NonPole) (hpole (Or.inr hs))
+        (out_of_not_boundary p hnb) ?_ ?_ ?_
       · exact Eventually.of_forall (fun ε e _ => by rw [zero_mul, add_zero])
       · filter_upwards [eventually_small π hpi] with ε h1
         constructor
@@ -200,8 +387,31 @@ theorem contains_convex_all (poly : Polygon ℝ) (hb : poly.Built) (o : ℝ) (h 
           · rw [hs]; linarith
         · unfold Coo.NonPole; rw [pert_lat, hs]; constructor <;> linarith
       · rintro p' ⟨q1, q2⟩ hg
-        exact contains_convex_any_lon poly hb o h p' q1 q2 hg
-    · exact contains_convex_any_lon poly hb o h p hp
-        ⟨lt_of_le_of_ne hp.lat0 (Ne.symm hs), lt_of_le_of_ne hp.lat1 hn⟩ hgc
+        exact contains_convex_nonpole poly hb o h p' q1 q2 hg
+    · exact contains_convex_nonpole poly hb o h p hp
+        ⟨lt_of_le_of_ne hp.lat0 (Ne.symm hs), lt_of_le_of_ne hp.lat1 hn⟩ hnb
+
+/-- corollary: every point that is on no edge's great circle -/
+theorem contains_convex_all (poly : Polygon ℝ) (hb : poly.Built) (o : ℝ) (h : ConvexNoPole o poly.vertices)
+    (p : Coo ℝ) (hp : p.Valid) (hgc : ∀ e ∈ edges poly.vertices, dot p (cross e.1 e.2) ≠ 0) :
+    poly.contains p = true ↔ ∀ e ∈ edges poly.vertices, 0 < o * dot p (cross e.1 e.2) := by
+  have ho0 : o ≠ 0 := by rcases h.ho with h | h <;> rw [h] <;> norm_num
+  exact contains_convex_final poly hb o h p hp
+    (fun hall e he => lt_of_le_of_ne (hall e he) (Ne.symm (mul_ne_zero ho0 (hgc e he))))
+
+/-- the final form on the value returned by `Polygon::new` for positions in the canonical ranges -/
+theorem contains_convex_final_new (dbg : Bool) (lls : List (ℝ × ℝ))
+    (hr : ∀ ll ∈ lls, 0 ≤ ll.1 ∧ ll.1 < 2 * π ∧ -(π / 2) ≤ ll.2 ∧ ll.2 ≤ π / 2)
+    (o : ℝ) (h : ConvexNoPole o (lls.map cooOf)) (p : Coo ℝ) (hp : p.Valid)
+    (hnb : (∀ e ∈ edges (lls.map cooOf), 0 ≤ o * dot p (cross e.1 e.2)) →
+      ∀ e ∈ edges (lls.map cooOf), 0 < o * dot p (cross e.1 e.2)) :
+    ∃ poly, Polygon.new dbg lls = some poly ∧
+      (poly.contains p = true ↔ ∀ e ∈ edges (lls.map cooOf), 0 < o * dot p (cross e.1 e.2)) := by
+  have hne : lls ≠ [] := by
+    intro h0; have := h.hn; rw [h0] at this; simp at this
+  obtain ⟨poly, hnew, hvs, hb⟩ := polygon_new_real dbg lls hne hr
+  refine ⟨poly, hnew, ?_⟩
+  rw [← hvs] at h hnb ⊢
+  exact contains_convex_final poly hb o h p hp hnb
 
 end Hpx.Sph
